@@ -266,6 +266,55 @@ theorem editorProcess_geo (hrc : ComposeGeoSpec env.recompose) (fluid : Bool) (k
       | exact beginEditing_geo (pushInput_geo hrc (hk _) _)
       | exact beginEditing_geo (pushInput_geo hrc h _)
 
+/-! punctuator -/
+
+theorem punctOdd_geo {c : Ctx} (h : GeoInv c) (v : List (Bool × UInt8)) : GeoInv { c with punctOdd := v } := h.of_comp rfl
+
+theorem alternatePunct_geo (key : UInt8) (d : PunctDef) {c : Ctx} (h : GeoInv c) : GeoInv (alternatePunct c key d).1 := by
+  unfold alternatePunct
+  (repeat' split) <;>
+    first
+      | exact h
+      | exact modLastSeg_same h (fun _ => ⟨rfl, rfl, rfl⟩)
+
+theorem pairPunct_geo (hrc : ComposeGeoSpec env.recompose) (k : Bool × UInt8) {c : Ctx} (h : GeoInv c) :
+    GeoInv (pairPunct env k c) := by
+  unfold pairPunct
+  (repeat' split) <;>
+    first
+      | exact h
+      | (refine confirmCurrentSelection_geo hrc (GeoInv.of_comp (c := c.modLastSeg _) ?_ rfl)
+         exact modLastSeg_same h (fun _ => ⟨rfl, rfl, rfl⟩))
+
+theorem punctFinish_geo (hrc : ComposeGeoSpec env.recompose) (k : Bool × UInt8) (d : PunctDef) {c : Ctx} (h : GeoInv c) :
+    GeoInv (punctFinish env k d c) := by
+  unfold punctFinish
+  cases d <;> dsimp only
+  · exact confirmCurrentSelection_geo hrc h
+  · exact h
+  · exact commit_geo hrc h
+  · exact pairPunct_geo hrc k h
+
+theorem punctProcess_geo (hrc : ComposeGeoSpec env.recompose) (k : Key) {c : Ctx} (h : GeoInv c) :
+    GeoInv (punctProcess env k c).1 := by
+  unfold punctProcess
+  split
+  · exact h
+  · split
+    · exact h
+    · split
+      · exact h
+      · split
+        · exact h
+        · dsimp only
+          split
+          · exact h
+          · (repeat' split) <;>
+              first
+                | exact alternatePunct_geo _ _ h
+                | exact pushInput_geo hrc (alternatePunct_geo _ _ h) _
+                | exact punctFinish_geo hrc _ _ (pushInput_geo hrc (alternatePunct_geo _ _ h) _)
+
 /-! chain and API -/
 
 theorem procRun_geo (hrc : ComposeGeoSpec env.recompose) (hnp : NoPrevMatch env) (p : Proc) (k : Key) {c : Ctx} (h : GeoInv c) :
@@ -278,6 +327,7 @@ theorem procRun_geo (hrc : ComposeGeoSpec env.recompose) (hnp : NoPrevMatch env)
   · exact editorProcess_geo hrc false k h
   · exact editorProcess_geo hrc true k h
   · exact h
+  · exact punctProcess_geo hrc k h
 
 theorem chain_geo (hrc : ComposeGeoSpec env.recompose) (hnp : NoPrevMatch env) (k : Key) : ∀ (ps : List Proc) {c : Ctx}, GeoInv c →
     GeoInv (chain env k ps c).1
